@@ -64,12 +64,17 @@ func opaqueRegion(r *roler, field *types.Var) bool {
 // storeRule: among the stores to d.obj reachable from callback fn (helpers
 // included) there is one whose value has role `want`; a store of the same
 // family (prefix) with a fully known, different role is a violation.
-func storeRule(c *core.Ctx, fn *core.Fn, key string, params []string, family *regexp.Regexp, want []string, why string) {
-	obj := structField(c, "decoder", "obj")
-	if obj == nil {
-		c.Undecidedf("R3.wiring", key, fn.Decl.Pos(), "the adaptor has no field obj")
+func storeRule(c *core.Ctx, slot *adaptorSlot, fn *core.Fn, key string, params []string, family *regexp.Regexp, want []string, why string) {
+	if slot == nil || slot.obj == nil {
+		c.Undecidedf("R3.wiring", key, fn.Decl.Pos(), "cannot tell in which field the adaptor keeps the decoded object (see adaptor/DecodeDump)")
 		return
 	}
+	obj := slot.obj
+	// the rules are written for `d.obj`; the object may live deeper (`d.slot.obj`)
+	for i := range want {
+		want[i] = strings.ReplaceAll(want[i], "d.obj", "d"+slot.path)
+	}
+	holder := "d" + slot.path[:strings.LastIndex(slot.path, ".")]
 	r := newRoler(c, fn, outsideRdb)
 	r.nameParams("d", params...)
 	stores := r.e.Stores(r.g, fn.Decl.Body, func(v *types.Var) bool { return v == obj })
@@ -87,8 +92,8 @@ func storeRule(c *core.Ctx, fn *core.Fn, key string, params []string, family *re
 			unknown = append(unknown, "op-assignment")
 			continue
 		}
-		switch base := strings.TrimPrefix(r.role(st.Site, st.LHS.X), "*"); {
-		case base == "d":
+		switch base := strings.TrimPrefix(strings.TrimPrefix(r.role(st.Site, st.LHS.X), "*"), "&"); {
+		case base == holder:
 		case unknownRole(base):
 			unknown = append(unknown, "a store to the obj of "+base)
 			continue
@@ -127,35 +132,48 @@ var (
 	valueFamily = regexp.MustCompile(`^(&?[A-Z][A-Za-z]*(\(.*\)|\{.*\})|make\([A-Z][A-Za-z]*,.*\))$`)
 )
 
+// adaptorSlot: the field in which the adaptor keeps the decoded object - found
+// as the field (path) of the adaptor that DecodeDump returns, not by its name.
+type adaptorSlot struct {
+	obj  *types.Var
+	path string // ".obj", ".slot.obj", ...
+}
+
 func adaptorRules(c *core.Ctx) {
+	var slot *adaptorSlot
+	if fn := c.Func(rdbPkg, "", "DecodeDump"); fn != nil {
+		slot = decodeDumpRule(c, fn)
+	}
+	if slot == nil {
+		if v := structField(c, "decoder", "obj"); v != nil {
+			slot = &adaptorSlot{obj: v, path: ".obj"}
+		}
+	}
 	if fn := c.Func(rdbPkg, "decoder", "Hset"); fn != nil {
-		storeRule(c, fn, "adaptor/Hset", []string{"key", "field", "value"}, appendFamily,
+		storeRule(c, slot, fn, "adaptor/Hset", []string{"key", "field", "value"}, appendFamily,
 			[]string{"append(d.obj.(Hash),&HashElement{Field:field,Value:value})"},
 			"Hset(key, field, value) appends HashElement{Field: field, Value: value} (order preserved)")
 	}
 	if fn := c.Func(rdbPkg, "decoder", "Zadd"); fn != nil {
-		storeRule(c, fn, "adaptor/Zadd", []string{"key", "score", "member"}, appendFamily,
+		storeRule(c, slot, fn, "adaptor/Zadd", []string{"key", "score", "member"}, appendFamily,
 			[]string{"append(d.obj.(ZSet),&ZSetElement{Member:member,Score:score})"},
 			"Zadd(key, score, member) appends ZSetElement{Member: member, Score: score}")
 	}
 	for _, m := range []struct{ name, typ, p string }{{"Rpush", "List", "value"}, {"Sadd", "Set", "member"}} {
 		if fn := c.Func(rdbPkg, "decoder", m.name); fn != nil {
-			storeRule(c, fn, "adaptor/"+m.name, []string{"key", m.p}, appendFamily,
+			storeRule(c, slot, fn, "adaptor/"+m.name, []string{"key", m.p}, appendFamily,
 				[]string{"append(d.obj.(" + m.typ + ")," + m.p + ")"},
 				m.name+"(key, x) appends x to the "+m.typ+" in call order")
 		}
 	}
 	if fn := c.Func(rdbPkg, "decoder", "Set"); fn != nil {
-		storeRule(c, fn, "adaptor/Set", []string{"key", "value", "expiry"}, valueFamily, []string{"String(value)"}, "Set(key, value, expiry) yields String(value)")
+		storeRule(c, slot, fn, "adaptor/Set", []string{"key", "value", "expiry"}, valueFamily, []string{"String(value)"}, "Set(key, value, expiry) yields String(value)")
 	}
 	for _, m := range []struct{ name, typ string }{{"StartHash", "Hash"}, {"StartSet", "Set"}, {"StartList", "List"}, {"StartZSet", "ZSet"}} {
 		if fn := c.Func(rdbPkg, "decoder", m.name); fn != nil {
-			storeRule(c, fn, "adaptor/"+m.name, []string{"key"}, valueFamily,
+			storeRule(c, slot, fn, "adaptor/"+m.name, []string{"key"}, valueFamily,
 				[]string{m.typ + "(nil)", m.typ + "{}", "make(" + m.typ + ",=0)"}, m.name+" initialises an empty "+m.typ)
 		}
-	}
-	if fn := c.Func(rdbPkg, "", "DecodeDump"); fn != nil {
-		decodeDumpRule(c, fn)
 	}
 }
 
@@ -192,7 +210,7 @@ func resultExpr(fn *core.Fn, ret *ast.ReturnStmt, i int) ast.Expr {
 	return nil
 }
 
-func decodeDumpRule(c *core.Ctx, fn *core.Fn) {
+func decodeDumpRule(c *core.Ctx, fn *core.Fn) *adaptorSlot {
 	const rule, key = "R3.wiring", "adaptor/DecodeDump"
 	const why = "DecodeDump decodes the payload it was given into a fresh adaptor and returns that adaptor's object"
 	r := newRoler(c, fn, outsideRdb)
@@ -203,7 +221,7 @@ func decodeDumpRule(c *core.Ctx, fn *core.Fn) {
 	})
 	if len(calls) != 1 || len(calls[0].Call.Args) != 5 {
 		c.Undecidedf(rule, key, fn.Decl.Pos(), "expected one call of the cupcake DecodeDump reachable from DecodeDump, found %d", len(calls))
-		return
+		return nil
 	}
 	dc := calls[0]
 	var wrong, unknown []string
@@ -226,10 +244,11 @@ func decodeDumpRule(c *core.Ctx, fn *core.Fn) {
 		if !zeroDeclared(r, dc.Call.Args[4]) {
 			unknown = append(unknown, "adaptor variable is not declared as a zero value")
 		}
-	case strings.HasPrefix(ad, "decoder{}@") || strings.HasPrefix(ad, "new(decoder)@"):
+	case freshAllocRe.MatchString(ad):
 	default:
 		unknown = append(unknown, "adaptor: "+ad)
 	}
+	var slot *adaptorSlot
 	rets := successfulReturns(r)
 	if len(rets) == 0 {
 		unknown = append(unknown, "no successful return")
@@ -237,21 +256,33 @@ func decodeDumpRule(c *core.Ctx, fn *core.Fn) {
 	for _, rp := range rets {
 		ret := rp.Node().(*ast.ReturnStmt)
 		s := flow.Site{G: r.g, At: rp}
-		for i, f := range []string{"obj", "err"} {
+		for i, f := range []string{"object", "error"} {
 			x := resultExpr(fn, ret, i)
 			if x == nil {
 				unknown = append(unknown, "return form")
 				continue
 			}
 			got := strings.TrimPrefix(r.role(s, x), "&")
+			// a field (path) of the adaptor handed to the decoder: interface-typed for the
+			// object, error-typed for the error
+			var fv *types.Var
+			if strings.HasPrefix(got, ad+".") && fieldPathRe.MatchString(got[len(ad):]) {
+				fv = fieldByPath(r.g.Info.TypeOf(dc.Call.Args[4]), got[len(ad):])
+			}
 			switch {
-			case got == ad+"."+f:
+			case fv != nil && i == 0 && isEmptyInterface(fv.Type()):
+				if slot == nil {
+					slot = &adaptorSlot{obj: fv, path: got[len(ad):]}
+				} else if slot.obj != fv {
+					wrong = append(wrong, "different returns yield different fields of the adaptor")
+				}
+			case fv != nil && i == 1 && cfgq.IsErrorType(fv.Type()):
 			case i == 0 && got == "nil" && cfgq.ClassifyReturn(r.g.Info, r.g.Body, ret) != cfgq.RetNilErr:
 				// (nil, err) with an error that may be nil only syntactically
-			case unknownRole(got) || !strings.HasSuffix(got, ".obj") && !strings.HasSuffix(got, ".err") && got != "nil" && !strings.HasPrefix(got, "="):
+			case unknownRole(got) || !(fv != nil || identityPathRe.MatchString(got) || got == "nil" || strings.HasPrefix(got, "=")):
 				unknown = append(unknown, "result "+f+": "+got)
 			default:
-				wrong = append(wrong, fmt.Sprintf("result %d is %s, expected the adaptor's %s (%s.%s)", i, got, f, ad, f))
+				wrong = append(wrong, fmt.Sprintf("result %d is %s, expected the %s field of the adaptor %s that was handed to the decoder", i, got, f, ad))
 			}
 		}
 	}
@@ -262,7 +293,48 @@ func decodeDumpRule(c *core.Ctx, fn *core.Fn) {
 		c.Undecidedf(rule, key, fn.Decl.Pos(), "cannot follow the adaptor object of DecodeDump: %s", strings.Join(unknown, "; "))
 	default:
 		c.Okf(rule, key, fn.Decl.Pos(), "%s", why)
+		return slot
 	}
+	return nil
+}
+
+var (
+	freshAllocRe   = regexp.MustCompile(`^([A-Za-z_]\w*\{\}|new\([A-Za-z_]\w*\))@[0-9]+$`)
+	fieldPathRe    = regexp.MustCompile(`^(\.[A-Za-z_]\w*)+$`)
+	identityPathRe = regexp.MustCompile(`^([A-Za-z_]\w*\{[^?]*\}|new\([A-Za-z_]\w*\)|var)@[0-9]+(\.[A-Za-z_]\w*)+$`)
+)
+
+func isEmptyInterface(t types.Type) bool {
+	it, ok := t.Underlying().(*types.Interface)
+	return ok && it.NumMethods() == 0
+}
+
+// fieldByPath follows `.a.b` from (a pointer to) a struct type to the field.
+func fieldByPath(t types.Type, path string) *types.Var {
+	var fv *types.Var
+	for _, name := range strings.Split(strings.TrimPrefix(path, "."), ".") {
+		if t == nil {
+			return nil
+		}
+		if p, ok := t.Underlying().(*types.Pointer); ok {
+			t = p.Elem()
+		}
+		st, ok := t.Underlying().(*types.Struct)
+		if !ok {
+			return nil
+		}
+		fv = nil
+		for i := 0; i < st.NumFields(); i++ {
+			if st.Field(i).Name() == name {
+				fv = st.Field(i)
+			}
+		}
+		if fv == nil {
+			return nil
+		}
+		t = fv.Type()
+	}
+	return fv
 }
 
 // zeroDeclared: x is `&v` (or v) with v declared by `var v T` or `v := T{}`.
@@ -423,6 +495,10 @@ func fieldRoles(r *roler, s flow.Site, x ast.Expr, st *types.Struct, d int) (map
 	case *ast.CallExpr:
 		if b, ok := core.Callee(s.G.Info, v).(*types.Builtin); ok && b.Name() == "new" {
 			return map[string]string{}, true
+		}
+		// built by a helper: what its (single) successful return builds
+		if rets, ok := r.e.Follow(s, v, 0); ok && len(rets) == 1 && rets[0].Expr != nil {
+			return fieldRoles(r, rets[0].Site, rets[0].Expr, st, d+1)
 		}
 	case *ast.Ident:
 		step := r.e.Step(s, v)
